@@ -12,11 +12,15 @@
     EXPAND <ast form>                              -> monomials: coef ; (id pow)*
     SAMPLES n nm <monomials as in TERMS> <tree form> lq q* nk (key bits (lq) count)*  -> symbolicScaled ; denseScaled ; specScaled
     TFIM n h | ONE n <8 ints>                      -> dense builder ; dense(form)
+    HIST n ns (N <ast form> | T i | A i j | B i j | M i j | K re im i | PA re im i | PS re im i | RS re im i)* <psi>
+                                                   -> per object: constant ; h @ psi   (objects joined by |), once without and
+                                                      once with term reuse (joined by ||): the algebra over call histories (QV/Model/HamilAlg.lean)
 -/
 import QV.Core.GI
 import QV.Model.Table
 import QV.Model.Sim
 import QV.Model.Hamil
+import QV.Model.HamilAlg
 open QV
 
 structure Rd where
@@ -146,6 +150,25 @@ def nextKey (k : Nat) : P (List Bool) := do
   let cs := t.toList
   pure ((List.range k).map fun i => cs.getD i '0' == '1')
 
+def nextStep : P (AStep GI) := do
+  let t ← nextTok
+  match t with
+  | "N" => pure (.new (← nextForm))
+  | "T" => pure (.touch (← nextNat))
+  | "A" => do let i ← nextNat; let j ← nextNat; pure (.add i j)
+  | "B" => do let i ← nextNat; let j ← nextNat; pure (.sub i j)
+  | "M" => do let i ← nextNat; let j ← nextNat; pure (.matmul i j)
+  | "K" => do let c ← nextGI; let i ← nextNat; pure (.smul c i)
+  | "PA" => do let c ← nextGI; let i ← nextNat; pure (.sadd c i)
+  | "PS" => do let c ← nextGI; let i ← nextNat; pure (.ssub c i)
+  | "RS" => do let c ← nextGI; let i ← nextNat; pure (.rsub c i)
+  | _ => pure (.touch 1000000)
+
+def showStore (n : Nat) (st : List (SObj GI)) (ψ : Array GI) : String :=
+  " | ".intercalate (st.map fun o =>
+    let o' := o.touch sameSym
+    s!"{o'.constant.toStr} ; {showGIs (applyGatesT n o'.termHam ψ)}")
+
 def handle : P String := do
   let cmd ← nextTok
   match cmd with
@@ -215,6 +238,17 @@ def handle : P String := do
     -- SPEC: Σ count · ⟨x_key| H |x_key⟩ with the label read through the map
     let c := freq.foldl (fun acc kc => acc + diag (Lab.toIndex n (keyLabel qm kc.1)) * kc.2) (0 : GI)
     pure s!"{a.toStr} ; {b.toStr} ; {c.toStr}"
+  | "HIST" =>
+    let n ← nextNat
+    let ns ← nextNat
+    let mut stepsR : List (AStep GI) := []
+    for _ in [0:ns] do
+      stepsR := (← nextStep) :: stepsR
+    let steps := stepsR.reverse
+    let ψ ← nextGIs (2 ^ n)
+    let a := runAlg sameSym false steps
+    let b := runAlg sameSym true steps
+    pure s!"{showStore n a ψ} || {showStore n b ψ}"
   | "TFIM" =>
     let n ← nextNat
     let h ← nextGI
